@@ -20,7 +20,7 @@ from harness.props import c01 as C01
 RULE = ('signed Interests/Data with every shipped signer (digest, HMAC, RSA-2048, ECDSA P-256/384/521, Ed25519, null) and '
         'random parameters; mutants of each wire: byte substitutions at every position (3 values per position quick / all 255 '
         'thorough on a subset), every truncation, TLV-level edits (delete / duplicate / swap / insert unknown critical and '
-        'non-critical element), the value of every top-level element cut short or extended with all Lengths fixed up.  Verifiers of a key: the verify function, the shipped checker object, and the compositions union_checker(digest checker, checker) / (checker, digest checker) / (checker) -- a verifier that raises has not accepted.  HMAC signer/verifier pairs with keys of 1..300 octets (every length around the 64-octet block and the 32-octet digest size), the value compared with an independent HMAC-SHA256 over the specified signed portion. non-trivial = a mutant that still parses or the original; distinct by wire hash')
+        'non-critical element), the value of every top-level element cut short or extended with all Lengths fixed up.  Verifiers of a key: the verify function, the shipped checker object, and the compositions union_checker(digest checker, checker) / (checker, digest checker) / (checker) -- a verifier that raises has not accepted.  ECDSA signature values re-encoded over an untouched signed portion (fixed-width r||s, padded DER integers, long-form length; the symmetry (r, n-s) of the scheme itself is a listed finding).  HMAC signer/verifier pairs with keys of 1..300 octets (every length around the 64-octet block and the 32-octet digest size), the value compared with an independent HMAC-SHA256 over the specified signed portion. non-trivial = a mutant that still parses or the original; distinct by wire hash')
 ASSUMPTIONS = ['unforgeability of the signature schemes / collision resistance of SHA-256 are hypotheses (C02_tamper_rejected); '
                'the run checks them empirically against pycryptodome for the generated mutants']
 
@@ -207,6 +207,32 @@ def check_packet(ctx, M, kind, wire, rec, verify, label, mutate=True):
                 muts.append(('cut', G.tlv(t0, TG.ser(els[:i] + [(et, ev[:k])] + els[i + 1:]))))
             for extra in (b'\x00', ev[:1] or b'\x01', bytes(7)):
                 muts.append(('ext', G.tlv(t0, TG.ser(els[:i] + [(et, ev + extra)] + els[i + 1:]))))
+    # re-encodings of an ECDSA SignatureValue (the signed portion untouched): fixed-width r||s, DER with padded integers,
+    # BER long-form length, and the scheme's own symmetry (r, n-s)
+    if label.startswith('ecdsa-') and els and sig0:
+        try:
+            from Cryptodome.Util.asn1 import DerSequence
+            seq = DerSequence().decode(sig0)
+            r_, s_ = int(seq[0]), int(seq[1])
+            key = P.Keys.get().ec[label[len('ecdsa-'):].split('.')[0]]
+            order = int(key._curve.order)
+            width = (order.bit_length() + 7) // 8
+
+            def der_int(x, pad=0):
+                b = b'\x00' * pad + x.to_bytes((x.bit_length() + 8) // 8, 'big')
+                return b'\x02' + bytes([len(b)]) + b
+            body = der_int(r_) + der_int(s_)
+            padded = der_int(r_, 1) + der_int(s_, 1)
+            forms = [('sig-raw', r_.to_bytes(width, 'big') + s_.to_bytes(width, 'big')),
+                     ('sig-padded', b'\x30' + (bytes([len(padded)]) if len(padded) < 128 else b'\x81' + bytes([len(padded)])) + padded),
+                     ('sig-longform', b'\x30\x81' + bytes([len(body)]) + body if len(body) < 128 else None),
+                     ('sig-high-s', bytes(DerSequence([r_, order - s_]).encode()))]
+            si = max(i for i, (t, _) in enumerate(els) if t in (0x17, 0x2e))
+            for mk, sv in forms:
+                if sv is not None and sv != sig0:
+                    muts.append((mk, G.tlv(t0, TG.ser(els[:si] + [(els[si][0], sv)] + els[si + 1:]))))
+        except Exception as e:   # noqa
+            ctx.stat('ecdsa-reencoding.skipped:' + type(e).__name__)
     for mk, w2 in muts:
         st2 = parsed_state(w2)
         if st2 is None:
@@ -229,8 +255,13 @@ def check_packet(ctx, M, kind, wire, rec, verify, label, mutate=True):
         if ok2 is not None and ok2[0] and changed and ptrs2.signature_info is not None:
             # digest "signatures" are unkeyed: a recomputed digest is a different signed packet, not a forgery
             if not (label.startswith('digest') and spec2 is not None and sig2 == hashlib.sha256(spec2).digest()):
-                ctx.violation('verifier', 'tampered-accepted',
-                              f'{label}: a packet differing in signed portion / signature value verifies', c2)
+                if mk == 'sig-high-s':
+                    # listed finding: (r, n-s) verifies whenever (r, s) does -- a symmetry of ECDSA itself
+                    ctx.violation('verifier', 'ecdsa-high-s-accepted',
+                                  'ECDSA: the SignatureValue re-encoded as (r, n-s) over the same signed portion verifies', {'kind': kind, 'signer': 'ecdsa'})
+                else:
+                    ctx.violation('verifier', 'tampered-accepted',
+                                  f'{label}: a packet differing in signed portion / signature value verifies', c2)
         if ok2 is not None and not ok2[0] and not changed:
             ctx.stat('mutant.untouched-but-rejected')     # not demanded by the property: recorded only
         if kind == 'interest':
